@@ -1135,6 +1135,11 @@ def c20_r3(ctx):
             # the finished rule's blob is traversed, but not as get_paths(): how a path is taken
             # from an element is not something this rule reads
             raise AnalysisError("idiom not recognised: the status lines of %s traverse the finished rule's blob directly, not blob.get_paths()" % e.id)
+        cuts = {st[1] for o in lp["iter"] for st in o[1:] if st[0] == "truncate"}
+        if gp is not None and e.origins_of_operand(gp.args[0]) == blob_of_result and cuts == {"zip"}:
+            # the paths walked in step with another sequence (the resolutions): it ends where
+            # the shorter one ends, and that the other is as long is not read off here
+            raise AnalysisError("idiom not recognised: the status lines of %s walk the blob's paths zipped with another sequence" % e.id)
         if gp is None or e.origins_of_operand(gp.args[0]) != blob_of_result or any(st[0] == "truncate" for o in lp["iter"] for st in o[1:]):
             ctx.viol((e.id, "print-other-collection"), "status lines are not printed for exactly the paths of the finished rule's blob (iterates %s)" % sorted(map(fmt_origin, lp["iter"])), e.where(lp["header"]))
             continue
